@@ -16,14 +16,21 @@
       list element       parse_linked_list [T]            = [parse_term T]
       infix operand      parse_subgoal  T = R             = unify(parse_term T, parse_term R)
       query argument     parse_query    fn(T)             = make_query fn(parse_term T)
-  PARTIAL: structured term texts (lists, complex terms, quoted atoms, atoms with blanks) are
-  decided by the contexts suite (random canonical terms + 60 special spellings, each parsed in
-  the five contexts by implementation and model).
+  PROVED HERE ALSO (`as_argument_structured`, `as_complex_argument_structured`, `as_query_argument_structured`), for every
+  STRUCTURED text T — lists, complex terms, quoted atoms, atoms with blanks, anything: a trimmed non-empty text without a
+  backslash, without a comma outside its own quotes / parentheses / brackets, with its parentheses, brackets and quotes
+  closed, in which `parse_term` finds no arithmetic infix (F3, below) —: as an argument of a complex term / built-in /
+  function / query it is `parse_term T` (`Lemmas/ParseArgSim.lean`: the loop of `parse_arguments` and `unescape` + the flag
+  loop of `parse_term` run side by side over the text).
+  PARTIAL: structured texts as list elements and infix operands, and texts with backslashes (F4), are
+  decided by the contexts suite (random canonical terms + 100 special spellings + all strings up to length 4 / 5 over the 12
+  characters the scanners treat specially, each parsed in the contexts by implementation and model).
   KNOWN FINDING F3 (open): a text with a top-level arithmetic infix (`$X + 1`) is a function term
   alone, in a list and as an operand of `=`, but an atom / a variable named `$X + 1` as an
   argument: parse_arguments() does not look for infix operators. Witness below.
 -/
 import SuironVerif.Lemmas.ParseToken
+import SuironVerif.Lemmas.ParseArgSim
 namespace Suiron.C20
 open Suiron.Parse
 
@@ -83,6 +90,52 @@ theorem C20_token (po : POps) (f : Nat) {fn T R : Text} (hf : TokenText fn) (h :
       ((parseTerm po (f + 1) T).bind fun t => (makeQuery [.atom (str fn), t]).bind fun r => .ok r.1) :=
   ⟨as_argument po f h, as_complex_argument po f hf h hd hlen, as_list_element po (f + 1) h,
    as_infix_operand po (f + 1) h hr, as_query_argument po f hf h hd hlen⟩
+
+/-! ## structured texts: lists, complex terms, quoted atoms, atoms with blanks -/
+
+/-- the conditions on a structured text: trimmed, non-empty, no backslash, no comma of its own outside quotes /
+    parentheses / brackets and none at the end, parentheses and brackets closed, no arithmetic infix (F3) -/
+structure Structured (T : Text) : Prop where
+  trimmed : trim T = T
+  nonempty : T ≠ []
+  noBackslash : ∀ c ∈ T, c ≠ '\\'
+  noTopComma : noTopComma T ⟨0, 0, false⟩ = true
+  lastNotComma : T.getLast? ≠ some ','
+  balanced : (dpScan T ⟨0, 0, false⟩).round = 0 ∧ (dpScan T ⟨0, 0, false⟩).square = 0
+  noInfix : (checkArithmeticInfix T).1 = .none
+
+/-- as the argument of `parse_arguments` (complex terms, built-in predicates, functions) -/
+theorem as_argument_structured (po : POps) (f : Nat) {T : Text} (h : Structured T) :
+    parseArguments po (f + 1) T = (parseTerm po (f + 1) T).bind fun t => .ok [t] :=
+  parseArguments_structured po f T h.trimmed h.nonempty h.noBackslash h.noTopComma h.lastNotComma h.balanced h.noInfix
+
+/-- as the argument of a complex term (the quotes of T closed as well) -/
+theorem as_complex_argument_structured (po : POps) (f : Nat) {fn T : Text} (hf : TokenText fn) (h : Structured T)
+    (hclosed : (dpScan T ⟨0, 0, false⟩).oq = false)
+    (hd : fn.head? ≠ some '$') (hlen : fn.length + T.length + 2 ≤ 1000) :
+    parseComplex po (f + 2) (fn ++ '(' :: T ++ [')']) =
+      (parseTerm po (f + 2) T).bind fun t => .ok (.cplx (.cons (.atom (str fn)) (.cons t .nil))) :=
+  parseComplex_structured po f hf hd hlen h.trimmed h.nonempty h.noBackslash h.noTopComma h.lastNotComma h.balanced hclosed h.noInfix
+
+/-- as a query argument -/
+theorem as_query_argument_structured (po : POps) (f : Nat) {fn T : Text} (hf : TokenText fn) (h : Structured T)
+    (hclosed : (dpScan T ⟨0, 0, false⟩).oq = false)
+    (hd : fn.head? ≠ some '$') (hlen : fn.length + T.length + 2 ≤ 1000) :
+    parseQuery po (f + 2) (fn ++ '(' :: T ++ [')']) =
+      (parseTerm po (f + 2) T).bind fun t => (makeQuery [.atom (str fn), t]).bind fun r => .ok r.1 := by
+  unfold parseQuery
+  have hlast : ((fn ++ '(' :: T ++ [')']).getLast? == some '.') = false := by
+    rw [show fn ++ '(' :: T ++ [')'] = (fn ++ '(' :: T) ++ [')'] from by simp, List.getLast?_concat]; decide
+  simp only [hlast, Bool.false_eq_true, if_false, as_complex_argument_structured po f hf h hclosed hd hlen]
+  cases parseTerm po (f + 2) T <;> simp [Res.bind, TermList.toList]
+
+/-- non-vacuity: a complex term holding a list with a quoted atom that contains a comma; a quoted atom with a comma;
+    a list with a signed float and a tail variable; an atom with a blank -/
+example : Structured "f(a, [b, \"c, d\"])".toList ∧ (dpScan "f(a, [b, \"c, d\"])".toList ⟨0, 0, false⟩).oq = false :=
+  ⟨⟨by decide, by decide, by decide, by decide, by decide, by decide, by decide⟩, by decide⟩
+example : Structured "\"a, b\"".toList := ⟨by decide, by decide, by decide, by decide, by decide, by decide, by decide⟩
+example : Structured "[1, -2.5 | $T]".toList := ⟨by decide, by decide, by decide, by decide, by decide, by decide, by decide⟩
+example : Structured "New York".toList := ⟨by decide, by decide, by decide, by decide, by decide, by decide, by decide⟩
 
 /-! non-vacuity and witnesses -/
 def po0 : POps := ⟨fun _ => none, fun c => ('a'.toNat ≤ c.toNat && c.toNat ≤ 'z'.toNat) || ('A'.toNat ≤ c.toNat && c.toNat ≤ 'Z'.toNat)⟩
